@@ -14,7 +14,8 @@ RULE = ('E2 histories (Master + ZkBackend + masterapi on the fake ZooKeeper) '
         'which entries were created, moved/deleted, and >=1 comparison saw '
         '>=2 entries. distinct = canonical JSON.'
         ' Since round 6: buckets leaving/re-entering the cell and re-parenting are part of the histories.'
-        ' Since round 8: rack definitions deleted under their servers (rmbucket, no event) followed by work and a master start.')
+        ' Since round 8: rack definitions deleted under their servers (rmbucket, no event) followed by work and a master start.'
+        ' Since round 9: server records pointed at a rack nobody defined (badparent).')
 ASSUMPTIONS = [
     'fake ZooKeeper (pbt/fakezk.py) stands in for the ensemble',
     'presence nodes are named by plain host name (loader/master convention '
